@@ -227,6 +227,15 @@ impl LeafUpdater {
             },
         };
 
+        // The item found is replaced or deleted; its overflow pages must be released even when
+        // there is nothing to keep before it.
+        if found {
+            let (val, overflow) = base.cell(to);
+            if overflow {
+                with_deleted_overflow(val);
+            }
+        }
+
         if from == to {
             // nothing to keep
             return;
@@ -235,13 +244,6 @@ impl LeafUpdater {
         let values_size = base.node.values_size(from, to);
         self.ops.push(LeafOp::KeepChunk(from, to, values_size));
         self.gauge.ingest(to - from, values_size);
-
-        if found {
-            let (val, overflow) = base.cell(to);
-            if overflow {
-                with_deleted_overflow(val);
-            }
-        }
     }
 
     // Attempt to build as many leaves as possible with the specified body size target
